@@ -54,6 +54,8 @@ func main() {
 			code = cmdBaseline(cfg)
 		case "list":
 			code = cmdList(cfg)
+		case "loops":
+			code = cmdLoops(cfg, *fnFilter)
 		default:
 			usage()
 		}
@@ -151,4 +153,56 @@ func init() {
 			}
 		}
 	}
+}
+
+func cmdLoops(cfg Config, filter string) int {
+	p, err := loadProgram(cfg.Repo, cfg.Specs)
+	if err != nil {
+		fmt.Fprintln(os.Stderr, err)
+		return 2
+	}
+	x := newExec(p)
+	var keys []string
+	for k := range p.funcs {
+		if strings.Contains(k, filter) {
+			keys = append(keys, k)
+		}
+	}
+	sort.Strings(keys)
+	for _, k := range keys {
+		fn := p.funcs[k]
+		if len(fn.Blocks) == 0 {
+			continue
+		}
+		ls := x.loopsOf(fn)
+		if len(ls) == 0 {
+			continue
+		}
+		fmt.Println(k)
+		type item struct {
+			ord  int
+			line string
+		}
+		var items []item
+		for h, li := range ls {
+			line := ""
+			for b := range li.blocks {
+				for _, ins := range b.Instrs {
+					if ins.Pos().IsValid() {
+						l := p.posString(ins.Pos()) + " " + p.sourceLine(ins.Pos())
+						if line == "" || l < line {
+							line = l
+						}
+					}
+				}
+			}
+			_ = h
+			items = append(items, item{li.ordinal, line})
+		}
+		sort.Slice(items, func(i, j int) bool { return items[i].ord < items[j].ord })
+		for _, it := range items {
+			fmt.Printf("   loop %d: %s\n", it.ord, it.line)
+		}
+	}
+	return 0
 }
